@@ -3,12 +3,15 @@ package c03
 import (
 	"errors"
 	"fmt"
+	"os"
+	"runtime/debug"
 	"strconv"
 	"strings"
 	"sync"
 
 	"github.com/dop251/goja"
 
+	"verif/harness/core"
 	"verif/harness/gj"
 )
 
@@ -22,12 +25,12 @@ const (
 	kConstructor = "Constructor" // AssertConstructor(global Name)(nil, Arg)
 	kExportTo    = "ExportTo"    // ExportTo(global Name, *func(int) (Value, error)) ; fn(Arg)
 	kExportToNE  = "ExportToNoErr"
-	kForOf       = "ForOf"   // Try(func(){ ForOf(global Name, step) }), step stops after Arg values
-	kTry         = "Try"     // Try(func(){ global Name .ToInteger() })  (valueOf in script)
-	kObjGet      = "ObjGet"  // Try(func(){ global Name .Get(Prop) })
-	kObjSet      = "ObjSet"  // global Name .Set(Prop, Arg)
-	kRtGet       = "RtGet"   // Try(func(){ Runtime.Get(Name) })   (global accessor)
-	kRtSet       = "RtSet"   // Runtime.Set(Name, Arg)
+	kForOf       = "ForOf"    // Try(func(){ ForOf(global Name, step) }), step stops after Arg values
+	kTry         = "Try"      // Try(func(){ global Name .ToInteger() })  (valueOf in script)
+	kObjGet      = "ObjGet"   // Try(func(){ global Name .Get(Prop) })
+	kObjSet      = "ObjSet"   // global Name .Set(Prop, Arg)
+	kRtGet       = "RtGet"    // Try(func(){ Runtime.Get(Name) })   (global accessor)
+	kRtSet       = "RtSet"    // Runtime.Set(Name, Arg)
 	kGenDrive    = "GenDrive" // Callable(global Name)() -> generator object; Arg x Callable(next); then Callable(return)
 )
 
@@ -67,7 +70,9 @@ type faultSpec struct {
 	K    int    `json:"k"`
 }
 
-func (f faultSpec) uncatchable() bool { return f.Kind == fInterrupt || f.Kind == fMaxCS || f.Kind == fStep }
+func (f faultSpec) uncatchable() bool {
+	return f.Kind == fInterrupt || f.Kind == fMaxCS || f.Kind == fStep
+}
 func (f faultSpec) atProbe() bool {
 	return f.Kind == fThrow || f.Kind == fPanic || f.Kind == fGoErr || f.Kind == fInterrupt
 }
@@ -89,23 +94,25 @@ type problem struct {
 }
 
 type runObs struct {
-	Calls      []callObs
-	Probes     int   // dynamic probe invocations during the history
-	Steps      int64 // VM instructions during the history
-	Problems   []problem
-	FaultHit   bool
-	FaultCall  int    // call during which the fault was injected / first uncatchable outcome (-1)
-	FaultTags  string // frame kinds live at the fault
-	Cut        int    // len(events of FaultCall) when the fault was injected (-1 unknown)
-	Fuel       bool
-	GenErr     string // generated program did not compile (harness bug)
-	FinalDump  string
-	Battery    []string
-	FinalDump2 string
-	IdleChecks int
-	Overflowed bool // some call returned StackOverflowError
-	JobsRun    int
-	JobsDrop   int
+	Calls          []callObs
+	Probes         int   // dynamic probe invocations (history and follow-up)
+	HistProbes     int   // dynamic probe invocations during the history
+	HistOverflowed bool  // some call of the history returned StackOverflowError
+	Steps          int64 // VM instructions during the history
+	Problems       []problem
+	FaultHit       bool
+	FaultCall      int    // call during which the fault was injected / first uncatchable outcome (-1)
+	FaultTags      string // frame kinds live at the fault
+	Cut            int    // len(events of FaultCall) when the fault was injected (-1 unknown)
+	Fuel           bool
+	GenErr         string // generated program did not compile (harness bug)
+	FinalDump      string
+	Battery        []string
+	FinalDump2     string
+	IdleChecks     int
+	Overflowed     bool // some call returned StackOverflowError
+	JobsRun        int
+	JobsDrop       int
 }
 
 func (o *runObs) addProblem(mon, class, detail string, call int) {
@@ -129,8 +136,9 @@ type env struct {
 	intPending  bool // our Interrupt was issued and not yet delivered
 	intIssuedIn int
 
-	helpers map[string]goja.Callable
-	base    int64 // VerifSteps after the prelude
+	helpers   map[string]goja.Callable
+	helperObj *goja.Object
+	base      int64 // VerifSteps after the prelude
 
 	// job trace
 	pending map[int64]bool
@@ -146,6 +154,11 @@ var (
 
 func compileStatics() {
 	compileOnce.Do(func() {
+		// every faulted run builds one or two throw-away runtimes: with the default GOGC the tiny live heap makes the
+		// collector run every few runtimes; let the heap grow to ~100 MB between collections instead
+		if os.Getenv("GOGC") == "" {
+			debug.SetGCPercent(gcPercent)
+		}
 		preludePrg = goja.MustCompile("prelude.js", preludeJS, false)
 		for i, s := range batterySrc {
 			batteryPrg = append(batteryPrg, goja.MustCompile(fmt.Sprintf("battery%d.js", i), s, false))
@@ -154,6 +167,7 @@ func compileStatics() {
 }
 
 const fuelPerPhase = 400000
+const gcPercent = 250
 
 func (e *env) ev(s string) {
 	if e.cutStep > 0 && e.obs.Cut < 0 && goja.VerifSteps(e.r) > e.cutStep {
@@ -285,6 +299,7 @@ func newEnv(h *history, f faultSpec, obs *runObs) (*env, error) {
 	}
 	ho := v.(*goja.Object)
 	e.helpers = map[string]goja.Callable{}
+	e.helperObj = ho
 	for _, n := range []string{"dump", "rebuild", "stk", "stk2", "thr", "rec", "depth"} {
 		f, ok := goja.AssertFunction(ho.Get(n))
 		if !ok {
@@ -327,6 +342,9 @@ func renderPrim(v goja.Value) string {
 	}
 	if _, ok := v.(*goja.Object); ok {
 		return "obj"
+	}
+	if sv, ok := v.(goja.String); ok && sv.Length() > 64 {
+		return fmt.Sprintf("s:%d:#%x", sv.Length(), core.HashString(sv.String()))
 	}
 	return gj.NewIds().Render(v)
 }
@@ -418,7 +436,10 @@ func (e *env) doCall(c *callSpec) (o gj.Outcome, skipped string, draining bool, 
 		}
 	default:
 		draining = false
-		v := e.lookup(c.Name)
+		var v goja.Value
+		if c.Kind != kRtGet && c.Kind != kRtSet {
+			v = e.lookup(c.Name)
+		}
 		if c.Kind == kRtGet || c.Kind == kRtSet {
 			// a global accessor: lookup() would invoke it; only check presence
 			var has bool
@@ -707,6 +728,8 @@ func runHistory(h *history, f faultSpec) (*runObs, *env) {
 		}
 	}
 	obs.Steps = goja.VerifSteps(r) - e.base
+	obs.HistProbes = obs.Probes
+	obs.HistOverflowed = obs.Overflowed
 	e.armed = false
 	e.curCall = -1
 	goja.VerifAtStep(r, 0, nil)
